@@ -753,6 +753,23 @@ def check_charset(read):
             raise Unsupported(f"{CHARSET_REL} no longer reads `{t[:90]}…` (Model/LoopIter.lean charsetSeek transcribes it)")
 
 
+DICT_REL = "read-fonts/src/tables/postscript/dict.rs"
+DICT_TEXTS = [
+    # parse_bcd: one `cursor.read::<u8>()?` per turn
+    "'outer: loop { let b = cursor.read::<u8>()?; for nibble in [(b >> 4) & 0xF, b & 0xF] { match nibble { 0x0..=0x9 => push(b'0' + nibble)?, 0xA => push(b'.')?, 0xB => push(b'E')?, 0xC => { push(b'E')?; push(b'-')?; } 0xE => push(b'-')?, 0xF => break 'outer, _ => return Err(Error::InvalidNumber), } } }",
+    # entries: one `token_iter.next()?` per turn
+    'let mut token_iter = tokens(dict_data); std::iter::from_fn(move || loop { let token = match token_iter.next()? { Ok(token) => token, Err(e) => return Some(Err(e)), }; match token { Token::Operand(number) => match stack.push(number) { Ok(_) => continue, Err(e) => return Some(Err(e)), }, Token::Operator(op) => { if op == Operator::Blend || op == Operator::VariationStoreIndex { let state = match blend_state.as_mut() { Some(state) => state, None => return Some(Err(Error::MissingBlendState)), }; if op == Operator::VariationStoreIndex { match stack .get_i32(0) .and_then(|ix| state.set_store_index(ix as u16)) { Ok(_) => {} Err(e) => return Some(Err(e)), } } if op == Operator::Blend { match stack.apply_blend(state) { Ok(_) => continue, Err(e) => return Some(Err(e)), } } } let entry = parse_entry(op, &mut stack); stack.clear(); return Some(entry); } } })',
+]
+
+
+def check_dict(read):
+    """Model/LoopIter.lean `consumeLoop` transcribes these two consumer loops"""
+    flat = " ".join(B.strip_comments(read(DICT_REL)).split())
+    for t in DICT_TEXTS:
+        if t not in flat:
+            raise Unsupported(f"{DICT_REL} no longer reads `{t[:90]}…` (Model/LoopIter.lean consumeLoop transcribes it)")
+
+
 def check_ring_sites(read):
     """Model/EdgeRing.lean (hand-written) transcribes these code sites; they are the only writers of edge_next_ix"""
     writes = 0
@@ -778,6 +795,7 @@ def generate(read):
     check_ring_sites(read)
     check_bsearch(read)
     check_charset(read)
+    check_dict(read)
     L_defs, header, stats = [], [], []
     for spec in LOOPS:
         src = B.strip_comments(read(spec["file"]))
